@@ -43,6 +43,10 @@ ObjConf == ObjectS("L", << Prop("a", PTA, FALSE), PropS("b", StringS(None, None,
 ObjRif == ObjectS("L", << Prop("a", PTA, FALSE), PropS("b", StringS(None, None, None), FALSE, <<"a">>, <<>>, <<>>, None, FALSE, FALSE) >>, "map", FALSE)
 ObjRifn == ObjectS("L", << Prop("a", PTA, FALSE), PropS("b", StringS(None, None, None), FALSE, <<>>, <<"a">>, <<>>, None, FALSE, FALSE) >>, "map", FALSE)
 Obj(ps) == M("string_any", ps)
+\* objects WITHOUT properties: every key is undeclared (a pure tag member of a one-of with a non-inlined discriminator)
+ObjEmpty == ObjectS("E", <<>>, "map", FALSE)
+OneOfTag == OneOfS("string", "type", FALSE, << <<"a", ObjectS("M", <<>>, "map", FALSE)>>,
+                                               <<"b", ObjectS("N", << Prop("b", StringS(None, None, None), FALSE) >>, "map", FALSE)>> >>)
 WithKey(c, k) == [c EXCEPT !.key = k]
 WithPath(c, p) == [c EXCEPT !.path = p]
 
@@ -87,6 +91,10 @@ LeafCases ==
       \* objects: an undeclared key, a missing required property, violated presence rules
       WithKey(Case(ObjReq, Obj(<< <<Str("a"), I64(1)>> >>), Obj(<< <<Str("a"), I64(1)>>, <<Str("x"), I64(1)>> >>),
                    Obj(<< <<Str("a"), I64(1)>> >>), Some(Obj(<< <<Str("a"), I64(1)>>, <<Str("x"), I64(1)>> >>)), "extra_key", ""), "x"),
+      WithKey(Case(ObjEmpty, Obj(<<>>), Obj(<< <<Str("x"), I64(1)>> >>), Obj(<<>>), Some(Obj(<< <<Str("x"), I64(1)>> >>)), "extra_key", ""), "x"),
+      WithKey(Case(ObjEmpty, Obj(<<>>), Obj(<< <<Str("a"), Str("a")>> >>), Obj(<<>>), Some(Obj(<< <<Str("a"), Str("a")>> >>)), "extra_key", ""), "a"),
+      WithKey(Case(OneOfTag, Obj(<< <<Str("type"), Str("a")>> >>), Obj(<< <<Str("type"), Str("a")>>, <<Str("x"), I64(1)>> >>),
+                   Obj(<< <<Str("type"), Str("a")>> >>), Some(Obj(<< <<Str("type"), Str("a")>>, <<Str("x"), I64(1)>> >>)), "extra_key", ""), "x"),
       WithPath(Case(ObjReq, Obj(<< <<Str("a"), I64(1)>> >>), Obj(<< <<Str("b"), Str("a")>> >>),
                     Obj(<< <<Str("a"), I64(1)>> >>), Some(Obj(<< <<Str("b"), Str("a")>> >>)), "missing_required", ""), <<"a">>),
       WithPath(Case(ObjConf, Obj(<< <<Str("a"), I64(1)>> >>), Obj(<< <<Str("a"), I64(1)>>, <<Str("b"), Str("a")>> >>),
